@@ -113,3 +113,31 @@ Proof.
     apply Z.leb_le in B1. apply Z.ltb_lt in B2. unfold in_i64. lia. }
   unfold path_set_key, path_comment, path_bind_text. rewrite Hall, P. repeat split.
 Qed.
+
+(** A refused SET SHARD is invisible in every history: removing it from the sequence of
+    shard-selecting events changes nothing, now or later. *)
+Lemma sel_refused_invisible part n cur ops v rest : (n <= v)%N ->
+  sel_run part n cur (ops ++ SelShard v :: rest) = sel_run part n cur (ops ++ rest).
+Proof.
+  intros H. unfold sel_run. rewrite !fold_left_app. cbn [fold_left sel_step].
+  rewrite set_shard_refused by exact H. reflexivity.
+Qed.
+
+(** The selection after any history is [None] (nothing ever selected), the partition of a key
+    that occurs in the history, or an in-range shard that occurs in it: never a number no
+    event named (in particular never an out-of-range shard when all keys map in range). *)
+Lemma sel_run_provenance part n ops : forall cur,
+  sel_run part n cur ops = cur \/
+  (exists k, In (SelKey k) ops /\ sel_run part n cur ops = Some (part k)) \/
+  (exists v, In (SelShard v) ops /\ (v < n)%N /\ sel_run part n cur ops = Some v).
+Proof.
+  unfold sel_run. induction ops as [|o ops IH]; intros cur; cbn [fold_left]; [left; reflexivity|].
+  destruct (IH (sel_step part n cur o)) as [E|[(k & Hin & E)|(v & Hin & Hv & E)]].
+  - rewrite E. destruct o as [k|v|]; cbn [sel_step].
+    + right; left. exists k. split; [left; reflexivity|reflexivity].
+    + unfold set_shard. destruct (N.leb_spec n v); cbn [fst]; [left; reflexivity|].
+      right; right. exists v. split; [left; reflexivity|]. split; [assumption|reflexivity].
+    + left; reflexivity.
+  - right; left. exists k. split; [right; exact Hin|exact E].
+  - right; right. exists v. split; [right; exact Hin|]. split; assumption.
+Qed.
